@@ -423,15 +423,49 @@ def rule_o4(em, only_kinds=('child', 'handler')):
     return obs
 
 
+def never_ok(prog, g, depth=0):
+    """every value g returns is a failure: `_0` is only ever assigned an `Err(..)` aggregate, the residual of `?`, or the
+    result of another such body (error-constructor helpers `fn unexpected_eof<T>(&self) -> Result<T>`)"""
+    memo = prog.__dict__.setdefault('_never_ok', {})
+    if g.id in memo:
+        return memo[g.id]
+    memo[g.id] = False
+    if depth > 3 or 'Result<' not in g.locals[0]['ty']:
+        return False
+    n = 0
+    for b in g.live_blocks:
+        blk = g.blocks[b]
+        for st in blk['stmts']:
+            if st['k'] == 'assign' and st['pl']['l'] == 0:
+                if st['pl']['p'] or st['rv']['k'] != 'agg' or st['rv'].get('variant') != 'Err':
+                    return False
+                n += 1
+        t = blk['term']
+        if t['k'] == 'call' and t['dest']['l'] == 0:
+            c = Call(g, b, t)
+            h = prog.by_id.get(c.ruid)
+            if t['dest']['p'] or not (c.callee == FROM_RESIDUAL or (h is not None and h.id != g.id and never_ok(prog, h, depth + 1))):
+                return False
+            n += 1
+    memo[g.id] = n > 0
+    return n > 0
+
+
 def _ok_return_reachable(body, start, removed):
     """is a return reachable from start that is not preceded by a failure assignment, avoiding
     `removed` blocks?"""
     fail = set()
+    prog = getattr(body.facts, '_prog', None)
     for b in body.live_blocks:
         blk = body.blocks[b]
         t = blk['term']
         if t['k'] == 'call' and t['dest']['l'] == 0 and (Call(body, b, t).callee == FROM_RESIDUAL):
             fail.add(b)
+        elif t['k'] == 'call' and t['dest']['l'] == 0 and not t['dest']['p'] and prog is not None:
+            # `return self.unexpected_eof()`: an error-constructor helper, whose every return value is a failure
+            g = prog.by_id.get(Call(body, b, t).ruid)
+            if g is not None and never_ok(prog, g):
+                fail.add(b)
         for st in blk['stmts']:
             if st['k'] == 'assign' and st['pl']['l'] == 0 and not st['pl']['p'] and st['rv']['k'] == 'agg' and st['rv'].get('variant') == 'Err':
                 fail.add(b)
